@@ -83,6 +83,8 @@ def do_copy(kind, root):
     return pickle.loads(pickle.dumps(root))
   if kind == 'cast':
     return fdl.cast(fdl.Partial if isinstance(root, fdl.Config) else fdl.Config, root)
+  if kind == 'cast_same':
+    return fdl.cast(type(root), root)
   if kind == 'copy_with':
     return fdl.copy_with(root, s2=7)
   if kind == 'deepcopy_with':
@@ -202,7 +204,7 @@ def random_sequences(v, rng, n):
     root, _ = H.realize(hp)
     before, _ = H.project(root)
     built_before = built_canon(root)
-    kind = rng.choice(['copy', 'deepcopy', 'pickle', 'cast', 'copy_with', 'deepcopy_with'])
+    kind = rng.choice(['copy', 'deepcopy', 'pickle', 'cast', 'cast_same', 'copy_with', 'deepcopy_with'])
     cp = do_copy(kind, root)
     got, _ = H.project(cp)
     exp = json.loads(json.dumps(before))
@@ -222,6 +224,10 @@ def random_sequences(v, rng, n):
     cc = closure(cp)
     oc = closure(root)
     own = [b for i, b in cc.items() if i not in oc]
+    if cp is root or not own:
+      v.mismatch({'clause': 'not-a-new-object', 'kind': kind, 'edit': 'random'},
+                 {'orig': before, 'message': f'{kind} returned the original object (or nothing of its own)'})
+      continue
     for _ in range(rng.randint(1, 4)):
       t = rng.choice(own)
       if isinstance(t, fdl.Buildable):
